@@ -2176,6 +2176,552 @@ theorem sam_extra (d : Nat) (_hd : d ≠ 10) (pre l post : Bytes) (hl : 10 ∉ l
         omega)]
       rw [hj.2, hP2]
 
+/-! ### interior comments: the pairs of a buffer line by line; comment lines never become entries -/
+
+/-- the (start, end) pairs of one line that starts at position `k` -/
+def linePairsOf (d : Nat) (k : Nat) (l : Bytes) : List (Nat × Nat) :=
+  List.zip (k :: (delimsFrom (isDelim d) k (l ++ [10])).map (· + 1)) (delimsFrom (isDelim d) k (l ++ [10]))
+
+/-- the lines with their start positions -/
+def lineStarts : Nat → List Bytes → List (Nat × Bytes)
+  | _, [] => []
+  | k, l :: ls => (k, l) :: lineStarts (k + l.length + 1) ls
+
+theorem delimsFrom_line_last (d k : Nat) (l : Bytes) :
+    delimsFrom (isDelim d) k (l ++ [10]) = delimsFrom (isDelim d) k l ++ [k + l.length] := by
+  rw [delimsFrom_append]
+  simp [delimsFrom, isDelim]
+
+theorem zip_cons_map_nil_right (a : Nat) (r : List Nat) (hne : r ≠ []) (r2 : List Nat) :
+    List.zip (a :: (r ++ r2).map (· + 1)) (r ++ r2)
+      = List.zip (a :: r.map (· + 1)) r ++ List.zip ((r.getLast hne + 1) :: r2.map (· + 1)) r2 :=
+  zip_cons_map_split (· + 1) a r r2 hne
+
+/-- the pairs of a text made of complete lines are, line by line, the pairs of each line at its own offset -/
+theorem pairs_by_line (d : Nat) (ls : List Bytes) (k : Nat) :
+    List.zip (k :: (delimsFrom (isDelim d) k (unlines ls)).map (· + 1)) (delimsFrom (isDelim d) k (unlines ls))
+      = (lineStarts k ls).flatMap (fun kl => linePairsOf d kl.1 kl.2) := by
+  induction ls generalizing k with
+  | nil => simp [unlines, delimsFrom, lineStarts]
+  | cons l rest ih =>
+    have hu : unlines (l :: rest) = (l ++ [10]) ++ unlines rest := by simp [unlines]
+    rw [hu, delimsFrom_append]
+    have hne : delimsFrom (isDelim d) k (l ++ [10]) ≠ [] := by rw [delimsFrom_line_last]; simp
+    rw [zip_cons_map_nil_right k _ hne]
+    have hlast : (delimsFrom (isDelim d) k (l ++ [10])).getLast hne = k + l.length := by
+      simp [delimsFrom_line_last]
+    rw [hlast]
+    have hk : k + (l ++ [10]).length = k + l.length + 1 := by simp; omega
+    rw [hk, ih (k + l.length + 1)]
+    simp [lineStarts, linePairsOf]
+
+/-- the texts of one line's pairs are the line's fields, wherever the line sits -/
+theorem linePairs_texts (d : Nat) (pre l post : Bytes) (hl : 10 ∉ l) :
+    (linePairsOf d pre.length l).map (fun p => slice (pre ++ (l ++ [10]) ++ post) p.1 p.2) = splitOn d l := by
+  unfold linePairsOf
+  have hb := bridge_aux (isDelim d) (l ++ [10]) pre pre.length (Nat.le_refl _)
+  rw [slice_self] at hb
+  have hps : piecesAcc (isDelim d) [] (l ++ [10]) = splitOn d l := by
+    have := pieces_stretch (isDelim d) d l 10 [] (fun b hb => by
+      have : b ≠ 10 := fun h => hl (h ▸ hb)
+      simp [isDelim, this]) (by simp [isDelim])
+    simpa [pieces, piecesAcc] using this
+  have hA : ∀ p ∈ List.zip (pre.length :: (delimsFrom (isDelim d) pre.length (l ++ [10])).map (· + 1))
+      (delimsFrom (isDelim d) pre.length (l ++ [10])),
+      slice (pre ++ (l ++ [10]) ++ post) p.1 p.2 = slice (pre ++ (l ++ [10])) p.1 p.2 := by
+    intro p hp
+    have := delimsFrom_range (isDelim d) pre.length (l ++ [10]) p.2 (List.of_mem_zip hp).2
+    exact slice_append_left _ post p.1 p.2 (by simp at this ⊢; omega)
+  rw [List.map_congr_left hA, ← hps, ← hb, List.zip, List.map_zipWith]
+
+theorem takeWhile_all {α} (p : α → Bool) (xs : List α) (hx : ∀ x ∈ xs, p x = true) : xs.takeWhile p = xs := by
+  induction xs with
+  | nil => rfl
+  | cons x rest ih =>
+    simp only [List.takeWhile_cons, hx x (by simp), if_true]
+    rw [ih (fun z hz => hx z (by simp [hz]))]
+
+theorem lineStarts_mem (k0 : Nat) (ls : List Bytes) (k : Nat) (l : Bytes) (h : (k, l) ∈ lineStarts k0 ls) :
+    ∃ before after, ls = before ++ l :: after ∧ k = k0 + (unlines before).length := by
+  induction ls generalizing k0 with
+  | nil => simp [lineStarts] at h
+  | cons x xs ih =>
+    simp only [lineStarts, List.mem_cons] at h
+    rcases h with h | h
+    · simp only [Prod.mk.injEq] at h
+      exact ⟨[], xs, by simp [h.2], by simp [unlines, h.1]⟩
+    · obtain ⟨b, a, hxs, hk⟩ := ih (k0 + x.length + 1) h
+      refine ⟨x :: b, a, by simp [hxs], ?_⟩
+      rw [hk]
+      simp [unlines]
+      omega
+
+theorem unlines_reverse_head (before : List Bytes) (hne : before ≠ []) :
+    ∃ tl, (unlines before).reverse = 10 :: tl := by
+  obtain ⟨init, lastl, hb⟩ : ∃ init lastl, before = init ++ [lastl] :=
+    ⟨before.dropLast, before.getLast hne, (List.dropLast_concat_getLast hne).symm⟩
+  rw [hb, unlines_snoc]
+  exact ⟨(unlines init ++ lastl).reverse, by simp⟩
+
+/-- the start of the line containing position `e`, for a position inside (or at the newline of) line `l` -/
+theorem lineStartOf_line (before : List Bytes) (l post : Bytes) (hl : 10 ∉ l) (e : Nat)
+    (h1 : (unlines before).length ≤ e) (h2 : e ≤ (unlines before).length + l.length) :
+    lineStartOf (unlines before ++ (l ++ [10]) ++ post) e = (unlines before).length := by
+  unfold lineStartOf
+  obtain ⟨j, hj⟩ : ∃ j, e = (unlines before).length + j := ⟨e - (unlines before).length, by omega⟩
+  have hjl : j ≤ l.length := by omega
+  have htake : (unlines before ++ (l ++ [10]) ++ post).take e = unlines before ++ l.take j := by
+    rw [hj, List.append_assoc, List.take_append, List.take_of_length_le (by omega)]
+    have : (unlines before).length + j - (unlines before).length = j := by omega
+    rw [this, List.append_assoc, List.take_append_of_le_length (by omega)]
+  rw [htake, List.reverse_append]
+  have hfree : ∀ x ∈ (l.take j).reverse, (fun b => b != 10) x = true := by
+    intro x hx
+    have : x ∈ l := List.mem_of_mem_take (by simpa using hx)
+    have : x ≠ 10 := fun h => hl (h ▸ this)
+    simp [this]
+  have hlen : ((l.take j).reverse ++ (unlines before).reverse).takeWhile (fun b => b != 10) = (l.take j).reverse := by
+    by_cases hb : before = []
+    · subst hb
+      simp only [unlines, List.map_nil, List.flatten_nil, List.reverse_nil, List.append_nil]
+      exact takeWhile_all _ _ hfree
+    · obtain ⟨tl, htl⟩ := unlines_reverse_head before hb
+      rw [htl]
+      exact takeWhile_append_stop _ _ 10 tl hfree (by simp)
+  rw [hlen]
+  simp
+  omega
+
+theorem unlines_append (a b : List Bytes) : unlines (a ++ b) = unlines a ++ unlines b := by
+  simp [unlines]
+
+theorem unlines_cons (l : Bytes) (rest : List Bytes) : unlines (l :: rest) = (l ++ [10]) ++ unlines rest := by
+  simp [unlines]
+
+/-- whether the pairs of a line are kept depends only on the line: it is kept iff it does not start with the
+comment character -/
+theorem keep_line (d c : Nat) (hc : c ≠ 10) (ls : List Bytes) (hfree : ∀ l ∈ ls, 10 ∉ l)
+    (k : Nat) (l : Bytes) (hkl : (k, l) ∈ lineStarts 0 ls) (p : Nat × Nat) (hp : p ∈ linePairsOf d k l) :
+    decide ((unlines ls).getD (lineStartOf (unlines ls) p.2) 0 ≠ c) = decide (l.head? ≠ some c) := by
+  obtain ⟨before, after, hls, hk⟩ := lineStarts_mem 0 ls k l hkl
+  simp only [Nat.zero_add] at hk
+  have hl : 10 ∉ l := hfree l (by rw [hls]; simp)
+  have hdata : unlines ls = unlines before ++ (l ++ [10]) ++ unlines after := by
+    rw [hls, unlines_append, unlines_cons]; simp
+  have hr := delimsFrom_range (isDelim d) k (l ++ [10]) p.2 (List.of_mem_zip hp).2
+  simp only [List.length_append, List.length_cons, List.length_nil] at hr
+  rw [hdata, lineStartOf_line before l (unlines after) hl p.2 (by omega) (by omega)]
+  have hget : (unlines before ++ (l ++ [10]) ++ unlines after).getD (unlines before).length 0 = (l ++ [10]).headD 0 := by
+    rw [List.append_assoc]
+    simp only [List.getD_eq_getElem?_getD]
+    rw [List.getElem?_append_right (Nat.le_refl _)]
+    simp only [Nat.sub_self]
+    cases l <;> simp
+  rw [hget]
+  cases l with
+  | nil => simp; exact fun h => hc h.symm
+  | cons x xs => simp
+
+theorem filter_flatMap_const {α β} (L : List α) (f : α → List β) (q : β → Bool) (P : α → Bool)
+    (h : ∀ a ∈ L, ∀ x ∈ f a, q x = P a) :
+    (L.flatMap f).filter q = L.flatMap (fun a => if P a then f a else []) := by
+  induction L with
+  | nil => rfl
+  | cons a rest ih =>
+    simp only [List.flatMap_cons, List.filter_append]
+    rw [ih (fun a' ha' => h a' (by simp [ha']))]
+    congr 1
+    by_cases hP : P a = true
+    · simp only [hP, if_true]
+      exact List.filter_eq_self.mpr (fun x hx => by rw [h a (by simp) x hx, hP])
+    · simp only [hP]
+      exact List.filter_eq_nil_iff.mpr (fun x hx => by rw [h a (by simp) x hx]; simpa using hP)
+
+theorem lineStarts_flatMap_snd {β} (g : Bytes → List β) (k : Nat) (ls : List Bytes) :
+    (lineStarts k ls).flatMap (fun kl => g kl.2) = ls.flatMap g := by
+  induction ls generalizing k with
+  | nil => rfl
+  | cons l rest ih => simp [lineStarts, ih]
+
+theorem flatMap_if_filter {α β} (q : α → Bool) (g : α → List β) (ls : List α) :
+    ls.flatMap (fun l => if q l then g l else []) = ((ls.filter q).map g).flatten := by
+  induction ls with
+  | nil => rfl
+  | cons l rest ih =>
+    simp only [List.flatMap_cons, List.filter_cons, ih]
+    split <;> simp
+
+/-- the kept pairs, as texts: the fields of the lines that are not comments -/
+theorem kept_texts (d c : Nat) (ls : List Bytes) (hfree : ∀ l ∈ ls, 10 ∉ l) :
+    ((lineStarts 0 ls).flatMap (fun kl => if decide (kl.2.head? ≠ some c) then linePairsOf d kl.1 kl.2 else [])).map
+        (fun p => slice (unlines ls) p.1 p.2)
+      = ((dataLines c ls).map (splitOn d)).flatten := by
+  rw [List.map_flatMap]
+  have hcongr : (lineStarts 0 ls).flatMap (fun kl =>
+        (if decide (kl.2.head? ≠ some c) then linePairsOf d kl.1 kl.2 else []).map (fun p => slice (unlines ls) p.1 p.2))
+      = (lineStarts 0 ls).flatMap (fun kl => if decide (kl.2.head? ≠ some c) then splitOn d kl.2 else []) := by
+    rw [List.flatMap_def, List.flatMap_def]
+    congr 1
+    apply List.map_congr_left
+    intro kl hkl
+    obtain ⟨k, l⟩ := kl
+    simp only
+    split
+    · obtain ⟨before, after, hls, hk⟩ := lineStarts_mem 0 ls k l hkl
+      simp only [Nat.zero_add] at hk
+      have hdata : unlines ls = unlines before ++ (l ++ [10]) ++ unlines after := by
+        rw [hls, unlines_append, unlines_cons]; simp
+      rw [hdata, hk]
+      exact linePairs_texts d (unlines before) l (unlines after) (hfree l (by rw [hls]; simp))
+    · rfl
+  rw [hcongr, lineStarts_flatMap_snd (fun l => if decide (l.head? ≠ some c) then splitOn d l else [])]
+  unfold dataLines
+  exact flatMap_if_filter _ _ ls
+
+theorem findIdx?_append_hit {α} (p : α → Bool) (xs : List α) (y : α) (ys : List α)
+    (hx : ∀ x ∈ xs, p x = false) (hy : p y = true) :
+    (xs ++ y :: ys).findIdx? p = some xs.length := by
+  induction xs with
+  | nil => simp [List.findIdx?_cons, hy]
+  | cons x rest ih =>
+    simp only [List.cons_append, List.findIdx?_cons, hx x (by simp), List.length_cons]
+    rw [ih (fun z hz => hx z (by simp [hz]))]
+    simp
+
+theorem map_snd_zip_cons (a : Nat) (r : List Nat) : (List.zip (a :: r.map (· + 1)) r).map (·.2) = r := by
+  induction r generalizing a with
+  | nil => rfl
+  | cons x xs ih => simp [ih (x + 1)]
+
+theorem zip_fst_snd {α β} (l : List (α × β)) : List.zip (l.map (·.1)) (l.map (·.2)) = l := by
+  induction l with
+  | nil => rfl
+  | cons x xs ih => simp [ih]
+
+/-- the kept pairs begin with the pairs of the first non-comment line -/
+theorem kept_head (d c : Nat) (ls : List Bytes) (k0 : Nat) (l1 : Bytes) (rest' : List Bytes)
+    (h : ls.filter (fun l => decide (l.head? ≠ some c)) = l1 :: rest') :
+    ∃ k1 tailK, (lineStarts k0 ls).flatMap (fun kl => if decide (kl.2.head? ≠ some c) then linePairsOf d kl.1 kl.2 else [])
+        = linePairsOf d k1 l1 ++ tailK ∧ (k1, l1) ∈ lineStarts k0 ls := by
+  induction ls generalizing k0 with
+  | nil => simp at h
+  | cons l rest ih =>
+    simp only [List.filter_cons] at h
+    split at h
+    · rename_i hq
+      simp only [List.cons.injEq] at h
+      obtain ⟨rfl, _⟩ := h
+      refine ⟨k0, (lineStarts (k0 + l.length + 1) rest).flatMap
+        (fun kl => if decide (kl.2.head? ≠ some c) then linePairsOf d kl.1 kl.2 else []), ?_, by simp [lineStarts]⟩
+      simp only [lineStarts, List.flatMap_cons, hq, if_true]
+    · rename_i hq
+      obtain ⟨k1, tailK, h1, h2⟩ := ih (k0 + l.length + 1) h
+      refine ⟨k1, tailK, ?_, by simp [lineStarts, h2]⟩
+      have hq' : decide (l.head? ≠ some c) = false := by simpa using hq
+      simp only [lineStarts, List.flatMap_cons, hq', Bool.false_eq_true, if_false, List.nil_append]
+      exact h1
+
+/-- **commentTable_spec.** For every buffer whose non-comment lines (at least one) all have `n` fields — comment lines
+anywhere: before, between and after the records, with or without delimiters inside them — the repaired
+start/end computation yields a table of `n` columns whose texts are exactly the fields of the non-comment lines:
+comment lines never become entries. -/
+theorem commentTable_spec (d c : Nat) (_hd : d ≠ 10) (hc : c ≠ 10) (bs : Bytes) (n : Nat)
+    (hdata : dataLines c (linesOf bs) ≠ [])
+    (huni : ∀ l ∈ dataLines c (linesOf bs), (splitOn d l).length = n) :
+    ∃ t, commentTable d c bs = .ok t ∧ t.nCols = n ∧
+      tableFields (complete bs) t = (dataLines c (linesOf bs)).map (splitOn d) := by
+  have hcomp := complete_eq bs
+  obtain ⟨ls, hls⟩ : ∃ ls, ls = linesOf bs := ⟨_, rfl⟩
+  rw [← hls] at hdata huni hcomp ⊢
+  have hfree : ∀ l ∈ ls, 10 ∉ l := by rw [hls]; exact linesOf_free bs
+  obtain ⟨l1, rest', hdl⟩ : ∃ l1 rest', dataLines c ls = l1 :: rest' := by
+    cases h : dataLines c ls with
+    | nil => exact absurd h hdata
+    | cons a b => exact ⟨a, b, rfl⟩
+  have hlsne : ls ≠ [] := by intro h; subst h; simp [dataLines] at hdl
+  have hdata_ne : complete bs ≠ [] := by
+    rw [hcomp]
+    cases ls with
+    | nil => exact absurd rfl hlsne
+    | cons a b => simp [unlines]
+  -- all pairs, line by line; the kept ones
+  obtain ⟨ds, hds⟩ : ∃ ds, ds = delimsFrom (isDelim d) 0 (unlines ls) := ⟨_, rfl⟩
+  have hpairs : List.zip (0 :: ds.dropLast.map (· + 1)) ds
+      = (lineStarts 0 ls).flatMap (fun kl => linePairsOf d kl.1 kl.2) := by
+    have e := zipWith_dropLast (fun (a : Nat) (b : Nat) => (a, b)) (· + 1) 0 ds
+    have e' : List.zip (0 :: ds.dropLast.map (· + 1)) ds = List.zip (0 :: ds.map (· + 1)) ds := by
+      simpa [List.zip] using e
+    rw [e', hds]
+    exact pairs_by_line d ls 0
+  obtain ⟨kept, hkept⟩ : ∃ kept, kept = (List.zip (0 :: ds.dropLast.map (· + 1)) ds).filter
+      (fun p => decide ((unlines ls).getD (lineStartOf (unlines ls) p.2) 0 ≠ c)) := ⟨_, rfl⟩
+  have hkept2 : kept = (lineStarts 0 ls).flatMap
+      (fun kl => if decide (kl.2.head? ≠ some c) then linePairsOf d kl.1 kl.2 else []) := by
+    rw [hkept, hpairs]
+    exact filter_flatMap_const (lineStarts 0 ls) (fun kl => linePairsOf d kl.1 kl.2) _
+      (fun (kl : Nat × Bytes) => decide (kl.2.head? ≠ some c))
+      (fun kl hkl p hp => keep_line d c hc ls hfree kl.1 kl.2 hkl p hp)
+  have htexts : kept.map (fun p => slice (unlines ls) p.1 p.2) = ((dataLines c ls).map (splitOn d)).flatten := by
+    rw [hkept2]; exact kept_texts d c ls hfree
+  have hrowlen : ∀ r ∈ (dataLines c ls).map (splitOn d), r.length = n := by
+    intro r hr
+    simp only [List.mem_map] at hr
+    obtain ⟨l, hl', rfl⟩ := hr
+    exact huni l hl'
+  have hklen : kept.length = (dataLines c ls).length * n := by
+    have := congrArg List.length htexts
+    rw [List.length_map, length_flatten_const n _ hrowlen] at this
+    simpa using this
+  -- the column count read off the first kept newline
+  obtain ⟨k1, tailK, hk1, hmem1⟩ := kept_head d c ls 0 l1 rest' (by unfold dataLines at hdl; exact hdl)
+  rw [← hkept2] at hk1
+  have hl1n : (splitOn d l1).length = n := huni l1 (by rw [hdl]; simp)
+  have hnpos : 0 < n := by
+    rw [← hl1n]; exact List.length_pos_iff.mpr (splitOn_ne_nil d l1)
+  obtain ⟨before, after, hlsplit, hk1eq⟩ := lineStarts_mem 0 ls k1 l1 hmem1
+  simp only [Nat.zero_add] at hk1eq
+  have hl1free : 10 ∉ l1 := hfree l1 (by rw [hlsplit]; simp)
+  have hdatasplit : unlines ls = unlines before ++ (l1 ++ [10]) ++ unlines after := by
+    rw [hlsplit, unlines_append, unlines_cons]; simp
+  have hends : kept.map (·.2) = delimsFrom (isDelim d) k1 l1 ++ (k1 + l1.length) :: tailK.map (·.2) := by
+    rw [hk1, List.map_append]
+    unfold linePairsOf
+    rw [map_snd_zip_cons, delimsFrom_line_last]
+    simp
+  have hr1len : (delimsFrom (isDelim d) k1 l1).length + 1 = n := by
+    have h1 := linePairs_texts d (unlines before) l1 (unlines after) hl1free
+    have h2 := congrArg List.length h1
+    rw [List.length_map, hl1n, ← hk1eq] at h2
+    unfold linePairsOf at h2
+    rw [List.length_zip, delimsFrom_line_last] at h2
+    simp at h2
+    omega
+  have hfind : (kept.map (·.2)).findIdx? (fun e => decide ((unlines ls).getD e 0 = 10)) = some (n - 1) := by
+    rw [hends, findIdx?_append_hit]
+    · congr 1; omega
+    · intro e he
+      rw [hk1eq] at he
+      have := delimsFrom_getD (isDelim d) l1 (unlines before) ([10] ++ unlines after) e he
+      have hAe : unlines before ++ l1 ++ ([10] ++ unlines after) = unlines ls := by rw [hdatasplit]; simp
+      rw [hAe] at this
+      have : (unlines ls).getD e 0 ≠ 10 := fun h => hl1free (h ▸ this.2)
+      simpa using this
+    · rw [hdatasplit, hk1eq]
+      have : (unlines before ++ (l1 ++ [10]) ++ unlines after).getD ((unlines before).length + l1.length) 0 = 10 := by
+        have e1 : unlines before ++ (l1 ++ [10]) ++ unlines after = (unlines before ++ l1) ++ 10 :: unlines after := by simp
+        rw [e1]
+        have e2 : (unlines before).length + l1.length = (unlines before ++ l1).length := by simp
+        rw [e2]
+        simp [List.getD_eq_getElem?_getD]
+      simpa using this
+  refine ⟨⟨n, kept.map (·.1), kept.map (·.2)⟩, ?_, rfl, ?_⟩
+  · unfold commentTable
+    simp only [hdata_ne, if_false]
+    rw [hcomp, ← hds, ← hkept]
+    unfold tableOfStartsEnds
+    simp only [hfind]
+    have hn1 : n - 1 + 1 = n := by omega
+    simp only [hn1, List.length_map, hklen, Nat.mul_mod_left]
+    simp
+  · unfold tableFields Table.rows Table.pairs
+    simp only
+    rw [zip_fst_snd, List.length_map, hklen, Nat.mul_div_cancel _ hnpos, chunkF_map, hcomp, htexts]
+    have := chunkF_flatten n ((dataLines c ls).map (splitOn d)) hrowlen
+    simpa using this
+
+/-! ### SAM, whole buffer: the ragged delimiter array line by line -/
+
+def lineDelimsOf (d : Nat) (kl : Nat × Bytes) : List Nat := delimsFrom (isDelim d) kl.1 (kl.2 ++ [10])
+
+theorem delims_by_line (d : Nat) (ls : List Bytes) (k : Nat) :
+    delimsFrom (isDelim d) k (unlines ls) = (lineStarts k ls).flatMap (lineDelimsOf d) := by
+  induction ls generalizing k with
+  | nil => simp [unlines, delimsFrom, lineStarts]
+  | cons l rest ih =>
+    rw [unlines_cons, delimsFrom_append]
+    have hk : k + (l ++ [10]).length = k + l.length + 1 := by simp; omega
+    rw [hk, ih (k + l.length + 1)]
+    simp [lineStarts, lineDelimsOf]
+
+theorem delimsFrom_length_count (d k : Nat) (l : Bytes) (hl : 10 ∉ l) :
+    (delimsFrom (isDelim d) k l).length = l.count d := by
+  induction l generalizing k with
+  | nil => rfl
+  | cons b bs ih =>
+    have hb : b ≠ 10 := fun h => hl (by simp [h])
+    have hbs : 10 ∉ bs := fun h => hl (by simp [h])
+    simp only [delimsFrom, isDelim, List.count_cons]
+    by_cases hbd : b = d
+    · subst hbd; simp [ih (k + 1) hbs]
+    · have : (b == d) = false := by simpa using hbd
+      simp [hb, this, ih (k + 1) hbs]
+
+theorem lineDelimsOf_length (d : Nat) (k : Nat) (l : Bytes) (hl : 10 ∉ l) :
+    (lineDelimsOf d (k, l)).length = l.count d + 1 := by
+  unfold lineDelimsOf
+  rw [delimsFrom_line_last]
+  simp [delimsFrom_length_count d k l hl]
+
+theorem lineStarts_map_snd (k : Nat) (ls : List Bytes) : (lineStarts k ls).map (·.2) = ls := by
+  induction ls generalizing k with
+  | nil => rfl
+  | cons l rest ih => simp [lineStarts, ih]
+
+theorem lineStarts_length (k : Nat) (ls : List Bytes) : (lineStarts k ls).length = ls.length := by
+  have := congrArg List.length (lineStarts_map_snd k ls); simpa using this
+
+/-- `RaggedArray(delimiters, n_fields)`: the delimiters of a buffer grouped by line are each line's own delimiters -/
+theorem lineDelims_spec (d : Nat) (ls : List Bytes) (hfree : ∀ l ∈ ls, 10 ∉ l) :
+    lineDelims d (unlines ls) = (lineStarts 0 ls).map (lineDelimsOf d) := by
+  unfold lineDelims
+  simp only
+  rw [linesOf_unlines ls hfree, delims_by_line d ls 0]
+  have hc : ls.map (fun l => l.count d + 1) = ((lineStarts 0 ls).map (lineDelimsOf d)).map List.length := by
+    rw [List.map_map]
+    conv => lhs; rw [← lineStarts_map_snd 0 ls, List.map_map]
+    apply List.map_congr_left
+    intro kl hkl
+    obtain ⟨k, l⟩ := kl
+    have hl : 10 ∉ l := hfree l (by
+      have := List.mem_map_of_mem (f := (·.2)) hkl
+      rw [lineStarts_map_snd] at this; exact this)
+    simp only [Function.comp]
+    exact (lineDelimsOf_length d k l hl).symm
+  rw [hc, List.flatMap_def, unflatten_flatten]
+
+theorem lineDelimsOf_last (d : Nat) (kl : Nat × Bytes) : (lineDelimsOf d kl).getLast?.getD 0 = kl.1 + kl.2.length := by
+  unfold lineDelimsOf
+  rw [delimsFrom_line_last]
+  simp
+
+/-- the entry starts computed from the previous line's newline are the line starts -/
+theorem prevs_spec (d : Nat) (ls : List Bytes) (k : Nat) :
+    k :: ((lineStarts k ls).map (fun kl => (lineDelimsOf d kl).getLast?.getD 0 + 1)).dropLast
+      = if ls = [] then [k] else (lineStarts k ls).map (·.1) := by
+  induction ls generalizing k with
+  | nil => simp [lineStarts]
+  | cons l rest ih =>
+    simp only [lineStarts, List.map_cons, lineDelimsOf_last]
+    cases rest with
+    | nil => simp [lineStarts]
+    | cons l2 rest2 =>
+      have := ih (k + l.length + 1)
+      simp only [List.cons_ne_nil, if_false] at this ⊢
+      simp only [lineStarts, List.map_cons, lineDelimsOf_last] at this ⊢
+      rw [List.dropLast_cons_cons]
+      simp only [List.cons.injEq, true_and]
+      exact (List.cons.inj this).2
+
+theorem zip_map_map {α β γ} (f : α → β) (g : α → γ) (l : List α) :
+    List.zip (l.map f) (l.map g) = l.map (fun a => (f a, g a)) := by
+  induction l with
+  | nil => rfl
+  | cons x xs ih => simp [ih]
+
+/-- **sam_rows_spec.** For every LF SAM buffer with at least one line, every line having at least `k ≥ 1` fields
+(k = 11): the per-line (start, end) tables built from the ragged delimiter array denote, line by line, the first
+`k` fields and — as the optional-fields column — the remaining fields joined by TAB (empty when there are none). -/
+theorem sam_rows_spec (d : Nat) (hd : d ≠ 10) (bs : Bytes) (k : Nat) (hk1 : 1 ≤ k)
+    (hne : linesOf bs ≠ [])
+    (hk : ∀ l ∈ linesOf bs, k ≤ (splitOn d l).length)
+    (hnocr : ∀ l ∈ linesOf bs, l.getLast? ≠ some 13) :
+    ∃ rows, samRows d k bs = .ok rows ∧
+      rows.map (fun r => (r.1.map (fun p => slice (complete bs) p.1 p.2), slice (complete bs) r.2.1 r.2.2))
+        = (linesOf bs).map (fun l => ((splitOn d l).take k, joinWith d ((splitOn d l).drop k))) := by
+  have hcomp := complete_eq bs
+  obtain ⟨ls, hls⟩ : ∃ ls, ls = linesOf bs := ⟨_, rfl⟩
+  rw [← hls] at hne hk hnocr hcomp ⊢
+  have hfree : ∀ l ∈ ls, 10 ∉ l := by rw [hls]; exact linesOf_free bs
+  obtain ⟨l0, lrest, hl0⟩ : ∃ l0 lrest, ls = l0 :: lrest := by
+    cases h : ls with
+    | nil => exact absurd h hne
+    | cons a b => exact ⟨a, b, rfl⟩
+  have hdata_ne : complete bs ≠ [] := by rw [hcomp, hl0]; simp [unlines]
+  have hld := lineDelims_spec d ls hfree
+  -- the CR flag is off: the first line does not end in CR
+  have hcr : ((((lineStarts 0 ls).map (lineDelimsOf d)).head?.bind (·.getLast?)).getD 0 ≠ 0 &&
+      decide ((unlines ls).getD ((((lineStarts 0 ls).map (lineDelimsOf d)).head?.bind (·.getLast?)).getD 0 - 1) 0 = 13)) = false := by
+    have hfe : (((lineStarts 0 ls).map (lineDelimsOf d)).head?.bind (·.getLast?)).getD 0 = l0.length := by
+      rw [hl0]
+      simp only [lineStarts, List.map_cons, List.head?_cons, Option.bind_some]
+      have := lineDelimsOf_last d (0, l0)
+      simpa using this
+    rw [hfe]
+    by_cases h0 : l0.length = 0
+    · simp [h0]
+    · have hl0ne : l0 ≠ [] := by intro h; rw [h] at h0; simp at h0
+      have hget : (unlines ls).getD (l0.length - 1) 0 = l0.getLast hl0ne := by
+        rw [hl0, unlines_cons, List.append_assoc]
+        simp only [List.getD_eq_getElem?_getD]
+        rw [List.getElem?_append_left (by omega), List.getLast_eq_getElem, List.getElem?_eq_getElem (by omega)]
+        rfl
+      have : l0.getLast hl0ne ≠ 13 := by
+        intro h13
+        apply hnocr l0 (by rw [hl0]; simp)
+        rw [List.getLast?_eq_some_getLast hl0ne, h13]
+      have hne13 : (unlines ls).getD (l0.length - 1) 0 ≠ 13 := by rw [hget]; exact this
+      rw [Bool.and_eq_false_iff]
+      right
+      exact decide_eq_false hne13
+  have hprevs := prevs_spec d ls 0
+  rw [if_neg hne] at hprevs
+  have hzip : List.zip (0 :: (((lineStarts 0 ls).map (lineDelimsOf d)).map (fun r => r.getLast?.getD 0 + 1)).dropLast)
+      ((lineStarts 0 ls).map (lineDelimsOf d)) = (lineStarts 0 ls).map (fun kl => (kl.1, lineDelimsOf d kl)) := by
+    rw [List.map_map]
+    have : ((fun r : List Nat => r.getLast?.getD 0 + 1) ∘ lineDelimsOf d) = (fun kl => (lineDelimsOf d kl).getLast?.getD 0 + 1) := rfl
+    rw [this, hprevs, zip_map_map]
+  have hlens : ((lineStarts 0 ls).map (lineDelimsOf d)).any (fun r => decide (r.length < k)) = false := by
+    rw [List.any_eq_false]
+    intro r hr
+    simp only [List.mem_map] at hr
+    obtain ⟨⟨k0, l⟩, hkl, rfl⟩ := hr
+    have hlmem : l ∈ ls := by
+      have := List.mem_map_of_mem (f := (·.2)) hkl
+      rw [lineStarts_map_snd] at this; exact this
+    have hj := joinWith_splitOn d l
+    have hcnt := count_joinWith d (splitOn d l) (splitOn_ne_nil d l) (fun p hp => (splitOn_pieces d l p hp).1)
+    rw [hj] at hcnt
+    rw [lineDelimsOf_length d k0 l (hfree l hlmem), hcnt]
+    have := hk l hlmem
+    simp; omega
+  refine ⟨(lineStarts 0 ls).map (fun kl => samRow (unlines ls) false k kl.1 (lineDelimsOf d kl)), ?_, ?_⟩
+  · unfold samRows
+    simp only [hdata_ne, if_false]
+    rw [hcomp, hld]
+    simp only [hcr, hlens, Bool.false_eq_true, if_false]
+    rw [hzip, List.map_map]
+    rfl
+  · rw [hcomp, List.map_map]
+    conv => rhs; rw [← lineStarts_map_snd 0 ls, List.map_map]
+    apply List.map_congr_left
+    intro kl hkl
+    obtain ⟨k0, l⟩ := kl
+    obtain ⟨before, after, hsplit, hk0⟩ := lineStarts_mem 0 ls k0 l hkl
+    simp only [Nat.zero_add] at hk0
+    have hlmem : l ∈ ls := by rw [hsplit]; simp
+    have hdata : unlines ls = unlines before ++ (l ++ [10]) ++ unlines after := by
+      rw [hsplit, unlines_append, unlines_cons]; simp
+    have hnc : (unlines before ++ l).getLast? ≠ some 13 := by
+      by_cases hle : l = []
+      · subst hle
+        rw [List.append_nil]
+        by_cases hb : before = []
+        · subst hb; simp [unlines]
+        · obtain ⟨tl, htl⟩ := unlines_reverse_head before hb
+          have : (unlines before).getLast? = some 10 := by
+            rw [← List.head?_reverse, htl]; rfl
+          rw [this]; simp
+      · rw [List.getLast?_append]
+        cases hgl : l.getLast? with
+        | none => exact absurd (List.getLast?_eq_none_iff.mp hgl) hle
+        | some x =>
+          simp only [Option.some_or]
+          rw [← hgl]; exact hnocr l hlmem
+    have := sam_extra d hd (unlines before) l (unlines after) (hfree l hlmem) k hk1 (hk l hlmem) hnc
+    simp only [Function.comp, lineDelimsOf]
+    rw [hdata, hk0]
+    exact Prod.ext this.1 this.2
+
 /-! ### VCF INFO lookup and genotype triplets -/
 
 /-- **info_subfields_spec.** Splitting the flat INFO text once at every `;` / row end and regrouping per row gives,
@@ -2262,5 +2808,13 @@ example : infoLookup [68, 80] [[68, 66], [68, 80, 61, 53], [65, 70, 61, 49]] = s
 -- fasta_wrapped_join: records a:[AC,G], b:[] (no sequence line), c:[T]
 example : fastaGroup 62 (fastaSer 62 [([97], [[65, 67], [71]]), ([98], []), ([99], [[84]])])
     = ([[97], [98], [99]], [[65, 67, 71], [], [84]]) := by decide
+
+-- commentTable_spec: "a\tb\n#x\ty\nc\td\n" has two data lines of 2 fields and a comment with a TAB
+example : dataLines 35 (linesOf [97,9,98,10,35,120,9,121,10,99,9,100,10]) ≠ [] ∧
+    ∀ l ∈ dataLines 35 (linesOf [97,9,98,10,35,120,9,121,10,99,9,100,10]), (splitOn 9 l).length = 2 := by decide
+
+-- sam_rows_spec: "a\tb\tc\nd\te\n" with k = 2
+example : linesOf [97,9,98,9,99,10,100,9,101,10] ≠ [] ∧ (∀ l ∈ linesOf [97,9,98,9,99,10,100,9,101,10], 2 ≤ (splitOn 9 l).length) ∧
+    (∀ l ∈ linesOf [97,9,98,9,99,10,100,9,101,10], l.getLast? ≠ some 13) := by decide
 
 end C02
